@@ -244,31 +244,30 @@ def WCfg.gen : WCfg :=
       && armBody Gen.Watch.waitContextArmBodies (.recv "f.c") == []
     lazyOnce := Gen.Watch.lazyIsOnceValue }
 
-/-- one `watchableInner`, identified by its channel; `val = none` is the zero value -/
+/-- one `watchableInner`, identified by its channel (= its position in the order in which cells
+became current); `val = none` is the zero value -/
 structure Cell where
   val : Option Int
   closed : Bool
   /-- ghost: number of `Set`s that had swapped when this cell became current (0 for the empty
-  cell installed by `Value`); meaningful once `installed` -/
+  cell installed by `Value`) -/
   epoch : Nat
-  installed : Bool
   deriving DecidableEq, Repr
 
-/-- a `Set(v)` call -/
+/-- a `Set(v)` call. Allocating the new cell is local to the goroutine and is folded into the
+`Swap` step, which is the first step that other goroutines can observe. -/
 inductive SetPc where
   | idle
-  | allocated (c : Nat)
   | swapped (old : Option Nat)
   | done
   | panicked
   deriving DecidableEq, Repr
 
 /-- a `Value()` call; `done c lin` = returned cell `c`, `lin` (ghost) = number of `Set`s that had
-swapped at its last read of the pointer -/
+swapped at its last read of the pointer. Allocating the empty cell is folded into the CAS step. -/
 inductive ValPc where
   | idle
   | sawNil
-  | madeChan (c : Nat)
   | casFailed
   | done (c : Nat) (lin : Nat)
   | panicked
@@ -277,6 +276,7 @@ inductive ValPc where
 structure WState where
   /-- the `atomic.Pointer` -/
   ptr : Option Nat
+  /-- every cell that has ever been current, in that order -/
   cells : List Cell
   setters : List (Int × SetPc)
   readers : List ValPc
@@ -285,12 +285,15 @@ structure WState where
   deriving DecidableEq, Repr
 
 inductive WLabel where
-  | alloc (i : Nat)
+  /-- `oldInner := w.p.Swap(newInner)` -/
   | swap (i : Nat)
+  /-- `if oldInner != nil { close(oldInner.c) }` -/
   | close (i : Nat)
+  /-- `inner := w.p.Load()` -/
   | load (j : Nat)
-  | mkchan (j : Nat)
+  /-- `w.p.CompareAndSwap(nil, emptyInner)` -/
   | cas (j : Nat)
+  /-- `inner = w.p.Load()` after a failed CAS -/
   | reload (j : Nat)
   deriving DecidableEq, Repr
 
@@ -299,27 +302,19 @@ def winit (setVals : List Int) (readers : Nat) : WState :=
     readers := List.replicate readers .idle, hist := [] }
 
 def setSetter (s : WState) (i : Nat) (pc : SetPc) : WState :=
-  match s.setters[i]? with
-  | some (v, _) => { s with setters := s.setters.set i (v, pc) }
-  | none => s
+  { s with setters := s.setters.modify i (fun p => (p.1, pc)) }
 
 def setReader (s : WState) (j : Nat) (pc : ValPc) : WState := { s with readers := s.readers.set j pc }
 
-def cellAt (s : WState) (c : Nat) : Cell := (s.cells[c]?).getD { val := none, closed := false, epoch := 0, installed := false }
+def cellAt (s : WState) (c : Nat) : Cell := (s.cells[c]?).getD { val := none, closed := false, epoch := 0 }
 
 def wstep (cfg : WCfg) (s : WState) : WLabel → Option WState
-  | .alloc i =>
-    match s.setters[i]? with
-    | some (v, .idle) =>
-      let c := s.cells.length
-      some (setSetter { s with cells := s.cells ++ [{ val := some v, closed := false, epoch := 0, installed := false }] } i (.allocated c))
-    | _ => none
   | .swap i =>
     match s.setters[i]? with
-    | some (v, .allocated c) =>
+    | some (v, .idle) =>
       let hist := s.hist ++ [v]
-      some (setSetter { s with ptr := some c, hist := hist,
-                               cells := s.cells.set c { cellAt s c with epoch := hist.length, installed := true } } i (.swapped s.ptr))
+      some (setSetter { s with ptr := some s.cells.length, hist := hist,
+                               cells := s.cells ++ [{ val := some v, closed := false, epoch := hist.length }] } i (.swapped s.ptr))
     | _ => none
   | .close i =>
     match s.setters[i]? with
@@ -338,17 +333,13 @@ def wstep (cfg : WCfg) (s : WState) : WLabel → Option WState
       | some c => some (setReader s j (.done c s.hist.length))
       | none => some (setReader s j .sawNil)
     | _ => none
-  | .mkchan j =>
-    match s.readers[j]? with
-    | some .sawNil =>
-      let c := s.cells.length
-      some (setReader { s with cells := s.cells ++ [{ val := none, closed := false, epoch := 0, installed := false }] } j (.madeChan c))
-    | _ => none
   | .cas j =>
     match s.readers[j]? with
-    | some (.madeChan c) =>
+    | some .sawNil =>
       match s.ptr with
-      | none => some (setReader { s with ptr := some c, cells := s.cells.set c { cellAt s c with epoch := s.hist.length, installed := true } } j (.done c s.hist.length))
+      | none => some (setReader { s with ptr := some s.cells.length,
+                                         cells := s.cells ++ [{ val := none, closed := false, epoch := s.hist.length }] } j
+                        (.done s.cells.length s.hist.length))
       | some _ => some (setReader s j .casFailed)
     | _ => none
   | .reload j =>
@@ -429,14 +420,10 @@ def finit (fillVals : List Int) (ws : List Bool) : FState :=
     waiters := ws.map (fun c => { withCtx := c, cancelled := false, pc := .idle }) }
 
 def setFiller (s : FState) (i : Nat) (pc : FillPc) : FState :=
-  match s.fillers[i]? with
-  | some (v, _) => { s with fillers := s.fillers.set i (v, pc) }
-  | none => s
+  { s with fillers := s.fillers.modify i (fun p => (p.1, pc)) }
 
 def setWaiter (s : FState) (j : Nat) (pc : WaitPc) : FState :=
-  match s.waiters[j]? with
-  | some w => { s with waiters := s.waiters.set j { w with pc := pc } }
-  | none => s
+  { s with waiters := s.waiters.modify j (fun w => { w with pc := pc }) }
 
 def doStore (s : FState) (v : Int) : FState := { s with x := some v }
 /-- `close(f.c)`: `none` = panic (already closed) -/
@@ -477,7 +464,7 @@ def fstep (cfg : WCfg) (s : FState) : FLabel → Option FState
     | none => none
   | .cancel j =>
     match s.waiters[j]? with
-    | some w => if w.cancelled then none else some { s with waiters := s.waiters.set j { w with cancelled := true } }
+    | some w => if w.cancelled then none else some { s with waiters := s.waiters.modify j (fun w => { w with cancelled := true }) }
     | none => none
 
 inductive FReach (cfg : WCfg) : FState → Prop where
